@@ -468,7 +468,8 @@ class Printer:
     """
 
     def __init__(self, mode="min", rnd=None, extra=0.0, extra_targets=False, raw_targets=False, quote=None,
-                 wrap_stmt_whole=False):
+                 wrap_stmt_whole=False, raw_exp_base=False):
+        self.raw_exp_base = raw_exp_base  # rejection campaign: print `-a ** b` without the required parentheses
         self.mode = mode
         self.rnd = rnd
         self.extra = extra
@@ -564,7 +565,10 @@ class Printer:
             lv = BINLEVEL[op]
             if op == "**":
                 # ExponentiationExpression : UpdateExpression ** ExponentiationExpression
-                e(n["left"], UPDATE, noin, first)
+                if self.raw_exp_base and n["left"]["type"] == "UnaryExpression":
+                    e(n["left"], UNARY, noin, first)
+                else:
+                    e(n["left"], UPDATE, noin, first)
                 self.t(op)
                 e(n["right"], EXP, noin)
             else:
@@ -687,7 +691,7 @@ class Printer:
             self._params(v["params"])
             self.block(v["body"])
             return
-        if (p.get("_short") and not p["computed"] and p["key"]["type"] == "Identifier" and v["type"] == "Identifier"
+        if (p["shorthand"] and not p["computed"] and p["key"]["type"] == "Identifier" and v["type"] == "Identifier"
                 and v["name"] == p["key"]["name"]):
             self.t(v["name"])
             return
@@ -1063,7 +1067,11 @@ def render(toks, rnd, lay=None, nonl=None, must_nl=None, stats=None):
         allow_nl = (i not in nonl) or mnl
         need = prev is not None and t is not None and need_space(prev, t)
         tr = ""
-        if mnl or rnd.random() < lay.density:
+        if mnl and i in nonl:
+            # the original has a line break in a restricted position (break / continue / return / throw
+            # followed by a new line): keep exactly that, a line feed
+            tr = "\n"
+        elif mnl or rnd.random() < lay.density:
             tr = gen_trivia(rnd, lay, allow_nl, mnl)
         if need and not tr:
             tr = " "
@@ -1748,9 +1756,7 @@ class ExprGen:
                 props.append(p)
             else:
                 nm = rnd.choice(("a", "b", "x"))
-                p = Prop(Id(nm), Id(nm))
-                p["_short"] = True
-                props.append(p)
+                props.append(Prop(Id(nm), Id(nm), shorthand=True))
         n = Obj(props)
         if rnd.random() < 0.15:
             n["_trailing"] = True
